@@ -48,8 +48,7 @@ def corresponds(single, all_exc, one_shot):
 
 def compare(ctx, node, label, fac, one_shot, sc, fns, what):
     if one_shot and node.kinds() & {"Union", "Optional"}:
-        ctx.count("one_shot_vs_union_skipped")   # the first case that tries the iterator consumes it: nothing is documented about that
-        return None
+        ctx.count("one_shot_vs_union")   # the first case that tries the iterator consumes (part of) it: what the next case sees depends on the mode
     outs = {}
     shared = None if one_shot else fac()   # the same object for all modes unless it is a one-shot iterator
     for dt in DEBUG_MODES:
@@ -116,6 +115,10 @@ def check(ctx, node, prog, values, bag):
                 key = f"load:{mis}:{lnode.kind}:{type(ld).__name__}"
                 if one_shot and "Tuple" in node.kinds():
                     key = "load:fixed-tuple-from-one-shot-iterator"   # one mechanism: DISABLE needs len(), FIRST/ALL materialise with tuple()
+                if one_shot and node.kinds() & {"Union", "Optional"}:
+                    # one mechanism: the union loader hands the SAME iterator to every case; a case that fails under DISABLE / FIRST stops at its
+                    # first bad element, under ALL it drains the iterator to collect every error - so the next case sees different remainders
+                    key = "load:union-cases-share-one-shot-iterator"
                 ctx.violation(key, f"{node.src} <- {label} [{'strict' if sc else 'lax'}]: " + "; ".join(f"{dt.name}={o!r}" for dt, o in outs.items()),
                               {"type": node.src, "datum": repr(fac())[:300], "outcomes": {dt.name: repr(o) for dt, o in outs.items()}, "localised": lnode.src})
     # dumping: valid values and a few ill-typed objects
@@ -468,7 +471,16 @@ def _dict_items_with_a_bad_key(ctx):
         check(ctx, n, Program(n), [], bag)
 
 
+def _union_over_one_shot_iterator(ctx):
+    """The known finding: Union[List[int], List[str]] <- iter(['a', 'b']) gives ['b'] under DISABLE / FIRST and [] under ALL."""
+    for n in (spec.UnionT([spec.IterT("List", spec.IntT()), spec.IterT("List", spec.StrT())]),
+              spec.UnionT([spec.IterT("Set", spec.IntT()), spec.IterT("VarTuple", spec.StrT())])):
+        check(ctx, n, Program(n), [], [("iter(['a','b'])", (lambda: iter(["a", "b"])), True), ("iter(['a'])", (lambda: iter(["a"])), True),
+                                       ("iter([1,'b'])", (lambda: iter([1, "b"])), True)])
+
+
 DIRECTED = {
     "dict-items-with-a-bad-key": _dict_items_with_a_bad_key,
+    "union-over-one-shot-iterator": _union_over_one_shot_iterator,
     "tuple-from-iterator": _one(spec.TupleT([spec.IntT(), spec.IntT()]), "iter([1,2])"),
 }
